@@ -36,6 +36,9 @@ INTERFACE = ["privval", "pubval", "zero", "one", "fieldinverse", "get_modulus", 
 
 PROBE = r'''
 import json, sys, os
+if %(ipython_running)r:
+    import builtins
+    builtins.get_ipython = lambda: object()
 for m in %(blocked)r:
     sys.modules[m] = None
 report = dict(preimport_errors=[])
@@ -102,6 +105,10 @@ def expected(pre, envname, loadable):
             return dict(kind="select", names={envname}, stage=2, diag=False)
         return dict(kind="fail", stage=2, diag=False)
     diag = envname is not None
+    if loadable.get("ipython_running") and can("nobackend"):
+        # an interactive session (get_ipython is a builtin): no proof is wanted, nobackend - but only once pre-imports and the
+        # environment variable have had their say
+        return dict(kind="select", names={"nobackend"}, stage=3, diag=diag)
     for n, m in REGISTRY:
         if can(n):
             return dict(kind="select", names={n}, stage=3, diag=diag)
@@ -147,6 +154,10 @@ def configurations(tier):
                 ["pysnark.zkinterface.backend"], ["pysnark.nobackend"]):
         for env in (None, "snarkjs", "nobackend", "zkinterface", "zkifbellman", "nosuchbackend", "libsnark"):
             out.append(((), env, dict(flatbuffers=True, qaptools=False, libsnark=False, blocked=blk)))
+    # inside a running IPython session (get_ipython is a builtin)
+    for env in (None, "snarkjs", "zkinterface", "nobackend", "nosuchbackend", "qaptools"):
+        for pre in ((), ("pysnark.snarkjsbackend",)):
+            out.append((pre, env, dict(flatbuffers=True, qaptools=False, libsnark=False, ipython_running=True)))
     seen, uniq = set(), []
     for pre, env, ld in out:
         k = (pre, env, tuple(sorted((a, str(b)) for a, b in ld.items())))
@@ -188,7 +199,7 @@ def run_probe(pre, env, ld, wd, autoprove_off=False):
     extra["QAPTOOLS_BIN"] = os.path.join(boot.SHIMS, "qaptools_bin") if ld["qaptools"] else os.path.join(wd, "no-such-dir")
     extra["PYSNARK_KEYDIR"] = "keys"
     os.makedirs(os.path.join(wd, "keys"), exist_ok=True)
-    open(os.path.join(wd, "probe.py"), "w").write(PROBE % dict(pre=list(pre), iface=INTERFACE, autoprove_off=autoprove_off, blocked=list(ld.get("blocked") or [])))
+    open(os.path.join(wd, "probe.py"), "w").write(PROBE % dict(pre=list(pre), iface=INTERFACE, autoprove_off=autoprove_off, blocked=list(ld.get("blocked") or []), ipython_running=bool(ld.get("ipython_running"))))
     pr = subprocess.run([boot.PY, "probe.py"], cwd=wd, env=boot.child_env(extra, shims=shims), stdout=subprocess.PIPE, stderr=subprocess.PIPE, timeout=120)
     rep = None
     if os.path.exists(os.path.join(wd, "report.json")):
@@ -208,11 +219,13 @@ def worker(job):
             shutil.rmtree(wd, ignore_errors=True)
         exp = expected(pre, env, ld)
         envcls = "unset" if env is None else ("known" if env in NAME2MOD else "unknown")
-        ldcls = "".join(k[0] for k in sorted(ld) if ld[k] is True and k != "ipython") or "none"
+        ldcls = "".join(k[0] for k in sorted(ld) if ld[k] is True and k not in ("ipython", "ipython_running")) or "none"
         if ld.get("libsnark") == "broken":
             ldcls += "+libsnark-broken"
         if ld.get("ipython"):
             ldcls += "+ipython-installed"
+        if ld.get("ipython_running"):
+            ldcls += "+ipython-running"
         if ld.get("blocked"):
             ldcls += "+blocked:" + ",".join(m.split(".")[-2 if m.endswith(".backend") else -1] for m in ld["blocked"])
         cell = "stage%d|env-%s|load-%s|pre%d" % (exp["stage"], envcls, ldcls, len(pre))
